@@ -128,6 +128,10 @@ func runUnit(w *world.World, u unit, disk map[string][]byte, faults map[string]s
 	if u.xtest {
 		pkgPath += "_test"
 	}
+	outID := pkgPath // outcomes are keyed by package ID, as the real drivers' -json trees are
+	if u.xtest || u.testVar {
+		outID = fmt.Sprintf("%s [%s.test]", pkgPath, p.Path)
+	}
 	for _, f := range p.Files {
 		isExt := f.Name == world.ExtTestFile
 		if u.xtest != isExt || (strings.HasSuffix(f.Name, "_test.go") && !u.testVar && !u.xtest) {
@@ -225,7 +229,7 @@ func runUnit(w *world.World, u unit, disk map[string][]byte, faults map[string]s
 	})
 	if err != nil {
 		// the real unitchecker fails the unit
-		out.Errors[pkgPath] = append(out.Errors[pkgPath], "unit failed: "+err.Error())
+		out.Errors[outID] = append(out.Errors[outID], "unit failed: "+err.Error())
 		return nil
 	}
 	// which actions run: the roots and their prerequisites
@@ -351,7 +355,7 @@ func runUnit(w *world.World, u unit, disk map[string][]byte, faults map[string]s
 	func() {
 		defer func() {
 			if r := recover(); r != nil {
-				out.Errors[pkgPath] = append(out.Errors[pkgPath], fmt.Sprintf("fact encoding failed: %v", r))
+				out.Errors[outID] = append(out.Errors[outID], fmt.Sprintf("fact encoding failed: %v", r))
 			}
 		}()
 		data := facts.Encode()
@@ -369,7 +373,7 @@ func runUnit(w *world.World, u unit, disk map[string][]byte, faults map[string]s
 			continue
 		}
 		if act.task.Panic != nil {
-			out.Errors[pkgPath] = append(out.Errors[pkgPath], fmt.Sprintf("%s: panic: %v", act.a.Name, act.task.Panic))
+			out.Errors[outID] = append(out.Errors[outID], fmt.Sprintf("%s: panic: %v", act.a.Name, act.task.Panic))
 			continue
 		}
 		if u.vetxOnly {
@@ -384,15 +388,15 @@ func runUnit(w *world.World, u unit, disk map[string][]byte, faults map[string]s
 		if !isRootAnalyzer {
 			continue
 		}
-		if _, ok := out.Diags[pkgPath]; !ok {
-			out.Diags[pkgPath] = nil
+		if _, ok := out.Diags[outID]; !ok {
+			out.Diags[outID] = nil
 		}
 		if act.err != nil {
-			out.Errors[pkgPath] = append(out.Errors[pkgPath], fmt.Sprintf("%s: %v", act.a.Name, act.err))
+			out.Errors[outID] = append(out.Errors[outID], fmt.Sprintf("%s: %v", act.a.Name, act.err))
 		}
 		for _, d := range act.diags {
 			pos := fset.Position(d.Pos)
-			out.Diags[pkgPath] = append(out.Diags[pkgPath], Diag{act.a.Name, strings.TrimPrefix(pos.Filename, simRoot), pos.Line, pos.Column, d.Message})
+			out.Diags[outID] = append(out.Diags[outID], Diag{act.a.Name, strings.TrimPrefix(pos.Filename, simRoot), pos.Line, pos.Column, d.Message})
 		}
 	}
 	return nil
